@@ -287,7 +287,7 @@ macro_rules! txin_dec_harness {
     };
 }
 
-//@ harness: txin_dec_l0 class=F tier=thorough bound="script_sig length byte exactly 0; no-issuance paths; complete input" timeout=900
+//@ harness: txin_dec_l0 class=F tier=quick bound="script_sig length byte exactly 0; no-issuance paths; complete input" timeout=900
 //@ clause: TxIn decode, every 42-byte buffer with an empty script, bit 31 clear or index 0xffff_ffff: accepted, consumes 41; pegin flag = bit 30 and both flag bits stripped from the index, except index 0xffff_ffff which is kept with no flags and no issuance read; re-encoding reproduces the consumed bytes
 txin_dec_harness!(txin_dec_l0, 0);
 //@ harness: txin_dec_l1 class=F tier=thorough bound="script_sig length byte exactly 1; no-issuance paths; complete input" timeout=900
